@@ -89,7 +89,8 @@ theorem applyOp_refines_all (o : Impl.Opts) (r : Impl.Root) (hr : InvRoot o.esc 
             simp only [Impl.applyOp]; rw [if_pos h1]; exact fstOut_lift _ _
           rw [happ]
           cases hv : op.value with
-          | none => rw [spec_novalue (Or.inl rfl) (by simp)]; trivial
+          | none =>
+            exact novalue_refines (Or.inl rfl) (by simp) (fun hp => ⟨_, opAdd_path_none_any o r op hp⟩)
           | some c =>
             cases ho : o.ensure with
             | false => exact opAdd_refines sz acc ho hr rfl rfl hv (by simp) (hvalInv c hv) hop.toks
@@ -110,7 +111,8 @@ theorem applyOp_refines_all (o : Impl.Opts) (r : Impl.Root) (hr : InvRoot o.esc 
                 simp only [Impl.applyOp]; rw [if_neg h1, if_neg h2, if_pos h3]; exact fstOut_lift _ _
               rw [happ]
               cases hv : op.value with
-              | none => rw [spec_novalue (Or.inr rfl) (by simp)]; trivial
+              | none =>
+                exact novalue_refines (Or.inr rfl) (by simp) (fun hp => ⟨_, opReplace_path_none o r op hp⟩)
               | some c => exact opReplace_refines sz acc hr rfl rfl hv (by simp) (hvalInv c hv) hop.toks
             · simp only [h3, if_false] at hkind
               by_cases h4 : op.kind = ascii "move"
@@ -157,7 +159,15 @@ theorem applyOp_refines_all (o : Impl.Opts) (r : Impl.Root) (hr : InvRoot o.esc 
             subst hkind
             rw [if_pos h1] at herr
             cases hv : op.value with
-            | none => rw [spec_novalue (Or.inl rfl) (by simp [hv])] at hres; cases hres
+            | none =>
+              rw [spec_novalue (Or.inl rfl) (by simp [hv])] at hres
+              split at hres
+              · next hp =>
+                cases hres
+                rw [Impl.opAdd_path_none_any o r op hp] at herr
+                cases herr
+                exact Impl.ErrC_missing (Or.inr rfl)
+              · cases hres
             | some cv =>
               obtain ⟨er', her', hcl⟩ : OpC c (opAdd o r op) := by
                 cases ho : o.ensure with
@@ -183,7 +193,15 @@ theorem applyOp_refines_all (o : Impl.Opts) (r : Impl.Root) (hr : InvRoot o.esc 
                 subst hkind
                 rw [if_pos h3] at herr
                 cases hv : op.value with
-                | none => rw [spec_novalue (Or.inr rfl) (by simp [hv])] at hres; cases hres
+                | none =>
+                  rw [spec_novalue (Or.inr rfl) (by simp [hv])] at hres
+                  split at hres
+                  · next hp =>
+                    cases hres
+                    rw [Impl.opReplace_path_none o r op hp] at herr
+                    cases herr
+                    exact Impl.ErrC_missing (Or.inr rfl)
+                  · cases hres
                 | some cv =>
                   obtain ⟨er', her', hcl⟩ := Impl.opReplace_class sz acc hr rfl rfl hv (by simp [hv])
                     (hvalInv cv hv) hop.toks hres
